@@ -59,7 +59,6 @@ PcOf(ev) == CASE ev = "GetValue" -> "getval" [] ev = "UpsertToCache" -> "upsert"
               [] ev = "Cas" -> "cas" [] ev = "Add" -> "add" [] ev = "SBytes" -> "sbytes" [] ev = "PCas" -> "pcas" [] ev = "PAdd" -> "padd"
               [] ev = "PStore" -> "pstore" [] ev = "FrmMark" -> "frmmark" [] ev = "FrmRem" -> "frmrem" [] ev = "Remove" -> "remove"
               [] ev = "PeekGet" -> "peekget" [] ev = "MeLock" -> "melock" [] ev = "MeEvict" -> "meevict" [] ev = "MeFin" -> "mefin"
-SilentPcs == {"gadoc", "mecheck", "peekread"}
 
 StepFacts(e, t) ==       \* pre-state: unprimed, post-state: primed
   LET v == th[t].v
@@ -97,9 +96,19 @@ HCStep ==
   /\ LET e == Trace[l] IN
        /\ pc[e.t] = PcOf(e.ev) /\ Act(e.t) /\ StepFacts(e, e.t) /\ RecordStep(e)
   /\ l' = l + 1 /\ UNCHANGED mode
-HCSilent ==            \* steps without a hook: placed anywhere between the thread's neighbouring events
-  /\ l <= TraceLen
-  /\ \E t \in Threads : pc[t] \in SilentPcs /\ Act(t)
+(* steps without a hook.  They are taken lazily, right before the next recorded line of the same thread (GetActive's document
+   read and Peek's read touch no shared state, so their exact position is immaterial).  The orchestrator's over-capacity check reads
+   the byte gauge at an unrecorded moment between the thread's neighbouring events: both outcomes are admitted here, the recorded
+   MeLock step that follows re-reads the gauge and is checked exactly. *)
+HMeCheck(t) ==
+  /\ pc[t] = "mecheck" /\ UNCHANGED evLock
+  /\ \/ (pc' = [pc EXCEPT ![t] = "melock"] /\ UNCHANGED <<cmap, lru, val, numItems, total, th, out>>)
+     \/ (/\ pc' = [pc EXCEPT ![t] = "idle"] /\ out' = [out EXCEPT ![t] = OutOf(th[t])]
+         /\ SetImpl(cmap, lru, val, numItems, total, RetTh(t, th)))
+  /\ Rest(t)
+HCSilent ==
+  /\ l <= TraceLen /\ Has(Trace[l], "t")
+  /\ LET t == Trace[l].t IN (pc[t] \in {"gadoc", "peekread"} /\ Act(t)) \/ HMeCheck(t)
   /\ UNCHANGED <<l, mode, hv>>
 HCEnd ==
   /\ Ev("End")
@@ -122,4 +131,5 @@ HCQuiesce ==
   /\ UNCHANGED <<vars, mode, hv>>
 HCNext == HReset \/ HCBegin \/ HCStep \/ HCSilent \/ HCEnd \/ HCQuiesce \/ (PStoreUpdate /\ UNCHANGED hv)
 HCSpec == HInit /\ [][HCNext]_hvars
+hview == <<cmap, lru, val, numItems, total, evLock, pc, th, conf, ghost, l, mode, hv>>     \* own tests record no return values: out is immaterial
 =============================================================================
